@@ -226,6 +226,12 @@ Fixpoint wsum (a : list R) (X : list (list R)) (w : list R) (t : nat) : R :=
   | ai :: a', r :: X', wi :: w' => (ai * nth t r 0 * wi + wsum a' X' w' t)%R
   | _, _, _ => 0%R
   end.
+(* sum_i |a_i| * X_it *)
+Fixpoint lsum (a : list R) (X : list (list R)) (t : nat) : R :=
+  match a, X with
+  | ai :: a', r :: X' => (Rabs ai * nth t r 0 + lsum a' X' t)%R
+  | _, _ => 0%R
+  end.
 (* e^{i phi} for phi in degrees, as (cos, sin) *)
 Definition cis_deg (p : R) : R * R := (cos (p * PI / 180), sin (p * PI / 180))%R.
 (* real and imaginary part of  sum_i A_ji X_it e^{i phi_i} *)
@@ -243,10 +249,11 @@ Record c06case := {
   c_X : list (list Q);               (* schedule_matrix given to the network / algorithm side *)
   c_map : list (nat * list Q);       (* mapping given to Interface.is_feasible *)
   c_linear : bool;
+  c_ovt : option Q; c_ort : option Q; (* explicit tolerance arguments of the network / interface calls *)
   (* recorded from the implementation *)
-  i_net : bool;                      (* ChargingNetwork.is_feasible(X, linear) *)
-  i_iface : option bool;             (* Interface.is_feasible(map, linear); None = InvalidScheduleError *)
-  i_alg_same : bool;                 (* utils...feasible(X, info, linear, net.vt, net.rt) *)
+  i_net : bool;                      (* ChargingNetwork.is_feasible(X, linear, ovt, ort) *)
+  i_iface : option bool;             (* Interface.is_feasible(map, linear, ovt, ort); None = InvalidScheduleError *)
+  i_alg_same : bool;                 (* utils...feasible(X, info, linear, effective vt, effective rt) *)
   i_alg_default : bool;              (* utils...feasible(X, info, linear) *)
   i_cur : list (list (Q * Q));       (* constraint_current(X, linear=linear) as (re, im) *)
   i_info_shape : option (nat * nat)  (* infrastructure_info().constraint_matrix.shape; None = raised *)
@@ -259,8 +266,8 @@ Definition check_c06 (c : c06case) : bool :=
   let X := c_X c in
   let T := c_T c in
   let lin := c_linear c in
-  Bool.eqb (net_is_feasible QF n X T lin None None) (i_net c)
-  && (match iface_is_feasible QF n (c_map c) lin None None, i_iface c with
+  Bool.eqb (net_is_feasible QF n X T lin (c_ovt c) (c_ort c)) (i_net c)
+  && (match iface_is_feasible QF n (c_map c) lin (c_ovt c) (c_ort c), i_iface c with
       | Ok b, Some b' => Bool.eqb b b'
       | Err _, None => true
       | _, _ => false
@@ -268,7 +275,8 @@ Definition check_c06 (c : c06case) : bool :=
   && (match infrastructure_info QF n, i_info_shape c with
       | Ok inf, Some (r, k) =>
           Nat.eqb (length (i_matrix inf)) r && Nat.eqb (i_ncols inf) k
-          && Bool.eqb (alg_is_feasible QF inf X T lin (n_vt n) (n_rt n)) (i_alg_same c)
+          && Bool.eqb (alg_is_feasible QF inf X T lin (opt_or QF (c_ovt c) (n_vt n)) (opt_or QF (c_ort c) (n_rt n)))
+                      (i_alg_same c)
           && Bool.eqb (alg_is_feasible_default QF inf X T lin) (i_alg_default c)
       | Err _, None => true
       | _, _ => false
